@@ -41,6 +41,7 @@ type Session struct {
 	LogLevel    string   `json:"log_level,omitempty"`   // "" (panic, as in production) | "debug" | "trace": answers must be byte-identical
 	Headers     bool     `json:"headers,omitempty"`     // odd request headers on the websocket upgrades and HTTP requests
 	ViaStream   bool     `json:"via_stream,omitempty"`  // the host is started through vw.Stream() with VW_PORT / VW_API / VW_LOGLEVEL in the environment
+	CtlRuleID   string   `json:"ctl_rule_id,omitempty"` // mode "ctl": the commands travel over a FURTHER control connection: a destination rule with this id on stream "api" (added by the first item, whose destination @CTL@ becomes the harness's relay end)
 	Obs         []Obs    `json:"obs,omitempty"`
 	coqView     *Session // (parent, pipelined) the whole topic history as given to the model
 }
@@ -84,6 +85,9 @@ func lookalike(r *lib.Rng) string {
 	}
 	return w
 }
+
+// ids for a further control connection: names the host uses internally, and neighbours of them
+var ctlRuleIDs = []string{"admin", "api", "Admin", "admin ", "verif-tap", "apiRule2", "stats"}
 
 var tmpDirs []string
 
@@ -593,6 +597,11 @@ func genSession(r *lib.Rng, nCmd, nHTTP int, mode string) Session {
 			s.Fifos = []string{"pipe.fifo"}
 		}
 	}
+	if mode == "ctl" && r.Chance(1, 2) {
+		s.CtlRuleID = ctlRuleIDs[r.Intn(len(ctlRuleIDs))]
+		m := `{"verb":"add","what":"destination","rule":{"id":` + jraw(s.CtlRuleID) + `,"stream":"api","destination":"@CTL@"}}`
+		s.Items = append(s.Items, Item{Kind: "cmd", Msg: []byte(m), Text: fmt.Sprintf("%q", m), Family: "add/destination/further-control-connection"})
+	}
 	s.LogLevel = []string{"", "", "", "trace", "debug"}[r.Intn(5)]
 	s.Headers = r.Chance(1, 2)
 	if (mode == "topic" || mode == "ws") && r.Chance(1, 3) {
@@ -750,6 +759,19 @@ func corpus() []Session {
 			cmd(`{"verb":"delete","what":"destination","which":"deleteAll"}`, "delete/destination/which-deleteAll"),
 			cmd(`{"verb":"list","what":"destination","which":"apiRule"}`, "list/destination"),
 			{Kind: "http", Method: "GET", Path: "/api/destinations/all", Family: "http/GET /api/destinations/all"},
+		}})
+	}
+	// a further control connection (a destination rule on stream "api") under ids that coincide with names used
+	// inside the host ("admin" is internalAPI's hub name, "api" the topic, ...): commands arriving over it are
+	// answered like any others
+	for _, id := range ctlRuleIDs {
+		out = append(out, Session{API: api, Mode: "ctl", CtlRuleID: id, Items: []Item{
+			cmd(`{"verb":"add","what":"destination","rule":{"id":`+jraw(id)+`,"stream":"api","destination":"@CTL@"}}`, "add/destination/further-control-connection"),
+			cmd(`{"verb":"healthcheck"}`, "healthcheck/"),
+			cmd(`{"verb":"list","what":"destination","which":"all"}`, "list/destination/which-all"),
+			cmd(`{"verb":"add","what":"stream","rule":{"stream":"stream/c2","feeds":["video0"]}}`, "add/stream"),
+			cmd(`{"verb":"delete","what":"stream","which":"stream/c2"}`, "delete/stream"),
+			cmd(`{"verb":"healthcheck"}`, "healthcheck/"),
 		}})
 	}
 	// reserved words in other spellings: none of them may remove apiRule, whatever else they do
